@@ -33,6 +33,8 @@ def gen_case(prop, sd, idx):
     rng = random.Random('%s-%d-%d' % (prop, sd, idx))
     sig = kc.gen_sig(rng)
     ignore = kc.gen_ignore(rng, sig) if prop in ('C11', 'C17') else ()
+    if prop == 'C11' and rng.random() < 0.15:
+        ignore = (rng.choice([0, 0, 1]),)
     if prop == 'C17' and rng.random() < 0.6:
         # several ignored names at once: the order of a set of names is where the hash seed enters
         names = [n for n, _ in sig['params']] + [n for n, _ in sig['kwonly']]
@@ -56,6 +58,16 @@ def gen_case(prop, sd, idx):
             b2['extra_kw'][c] = rng.choice(kc.VALUES)
         b2['changed'] = c
         bindings.append(b2)
+    if prop == 'C10' and rng.random() < 0.12:
+        # a call that is ONE bare positional argument (only a *args function has one), and its look-alike:
+        # the value and the string that spells it
+        sig = {'params': [], 'varargs': True, 'kwonly': [], 'varkw': rng.random() < 0.5}
+        ignore = ()
+        v, w = rng.choice([(5, '5'), (1, '1'), (None, 'None'), (True, 'True'), (2.5, '2.5'), ((1, 2), '(1, 2)'), ('a', "'a'"), (0, '0')])
+        if rng.random() < 0.5:
+            v, w = w, v
+        bindings = [{'vals': {}, 'extra_pos': [v], 'extra_kw': {}},
+                    {'vals': {}, 'extra_pos': [w], 'extra_kw': {}, 'changed': '*pos'}]
     forms = [kc.call_forms(rng, sig, b, 3) for b in bindings]
     return {'sig': sig, 'ignore': ignore, 'bindings': bindings, 'forms': forms}
 
@@ -239,17 +251,123 @@ def run_case(prop, case, keymaps):
                                              % (_show(a0, k0), _show(a1, k1), c, ignore, label),
                                      'calls': [[a0, k0], [a1, k1]]})
                 elif not is_ignored:
-                    guard = (not flat) or mark or not sig['varargs']
+                    # a flat key without a sentinel is ambiguous for *args functions only between calls of
+                    # DIFFERENT shape (f(1, 'a', 2) / f(1, a=2)); two calls of the same shape that differ in one value must differ
+                    same_shape = len(im0['ua']) == len(im1['ua']) and set(im0['uk']) == set(im1['uk'])
+                    guard = (not flat) or mark or not sig['varargs'] or same_shape
                     lossy = label.startswith('hash-')      # python's hash: not information preserving
                     must_differ = (changed or (typed and tdiff)) and guard and not lossy
                     if must_differ:
                         stats['pairs_diff'] += 1
                         if same:
-                            hits.append({'prop': prop, 'keymap': label,
+                            # K4: a flat str() key of ONE bare argument (only *args functions produce one)
+                            bare = flat and len(im0['ua']) == 1 and not im0['uk'] and label.startswith('str-')
+                            hits.append({'prop': prop, 'keymap': label, 'bare_str': bare,
                                          'what': 'calls f%r and f%r bind different values to non-ignored %r (ignore=%r) but share key %r under %s'
                                                  % (_show(a0, k0), _show(a1, k1), c, ignore, x, label),
                                          'calls': [[a0, k0], [a1, k1]]})
     return {'corr': corr, 'hits': hits, 'stats': stats}
+
+
+DECOS = [(m, n) for n in ('lru_cache', 'lfu_cache', 'mru_cache', 'rr_cache', 'inf_cache', 'no_cache') for m in ('klepto', 'klepto.safe')]
+
+
+def decorator_glue(prop, case, idx):
+    """the key pipeline as the twelve decorators run it (f.key): each decorator must compose rounding, _keygen
+    and its keymap exactly as the direct composition does, accept a bare name/index as ignore=, and give
+    identically-binding calls one key also when a rounding tolerance is set"""
+    import klepto
+    import klepto.safe
+    import klepto.keymaps as km
+    hits = []
+    sig, ignore = case['sig'], tuple(case['ignore'])
+    func = kc.make_func(sig)
+    kmi = idx % 3
+    mk = [lambda: km.stringmap(flat=False, encoding='repr'), lambda: km.hashmap(algorithm='md5'), lambda: km.picklemap(flat=True)][kmi]
+    klabel = ['repr-tfm', 'md5-tFm', 'pik-tFm'][kmi]
+    rounding = prop == 'C09' and idx % 3 == 0
+    tol, deep = (1, True) if rounding else (None, False)
+
+    def fl(v):
+        # with a tolerance: every number becomes a float with digits beyond it, nested ones too
+        if isinstance(v, bool) or v is None or isinstance(v, str):
+            return v
+        if isinstance(v, (int, float)):
+            return v + 0.26
+        if isinstance(v, tuple):
+            return tuple(fl(x) for x in v)
+        return v
+    if rounding:
+        # the defaults take part in the binding: a default spelled out by the caller must stay the default
+        if func.__defaults__:
+            func.__defaults__ = tuple(fl(d) for d in func.__defaults__)
+        if func.__kwdefaults__:
+            func.__kwdefaults__ = {n: fl(d) for n, d in func.__kwdefaults__.items()}
+    calls = []
+    for bi, forms in enumerate(case['forms']):
+        for args, kwds in forms:
+            if kc.py_bind(func, args, kwds) is None:
+                continue
+            calls.append((bi, tuple(fl(x) for x in args) if rounding else args,
+                          {n: fl(x) for n, x in kwds.items()} if rounding else kwds))
+    if not calls:
+        return hits
+    direct = None
+    if not rounding:
+        direct = []
+        for bi, a, k in calls:
+            try:
+                ua, uk = impl_keygen(func, ignore, a, k)
+                direct.append(kc.key_id(mk()(*ua, **uk)))
+            except Exception as e:
+                direct.append(('EXC', type(e).__name__))
+    for (modname, name) in DECOS:
+        cls = getattr(klepto.safe if modname == 'klepto.safe' else klepto, name)
+        variants = [ignore]
+        if len(ignore) == 1:
+            variants.append(ignore[0])          # a bare name / index is an ignore specification too
+        for ign in variants:
+            kw = dict(keymap=mk(), ignore=ign, tol=tol, deep=deep)
+            if 'no_' not in name and 'inf' not in name:
+                kw['maxsize'] = 7
+            try:
+                f = cls(**kw)(func)
+            except Exception as e:
+                hits.append({'prop': prop, 'keymap': klabel, 'what': '%s.%s(ignore=%r) failed to decorate: %s: %s' % (modname, name, ign, type(e).__name__, e), 'calls': []})
+                continue
+            keys = []
+            for bi, a, k in calls:
+                try:
+                    keys.append(kc.key_id(f.key(*a, **k)))
+                except Exception as e:
+                    keys.append(('EXC', type(e).__name__))
+            if direct is not None:
+                for (bi, a, k), kd, kf in zip(calls, direct, keys):
+                    if kd != kf:
+                        hits.append({'prop': prop, 'keymap': klabel,
+                                     'what': '%s.%s(ignore=%r): key of f%s is %r, but keymap(_keygen(f, %r, ...)) gives %r' % (
+                                         modname, name, ign, _show(a, k), kf, ignore, kd), 'calls': [[a, k]]})
+                        break
+            if prop in ('C09', 'C17'):
+                first = {}
+                for (bi, a, k), kf in zip(calls, keys):
+                    if bi not in first:
+                        first[bi] = (a, k, kf)
+                    elif first[bi][2] != kf:
+                        # K13: rounding runs on what the caller wrote, before defaults are filled in
+                        import inspect as _i
+                        dflt = {n for n, p_ in _i.signature(func).parameters.items()
+                                if p_.default is not _i.Parameter.empty and isinstance(p_.default, (float, tuple))}
+                        b1 = kc.py_bind(func, first[bi][0], first[bi][1])
+                        given1 = set(_i.signature(func).bind(*first[bi][0], **first[bi][1]).arguments)
+                        given2 = set(_i.signature(func).bind(*a, **k).arguments)
+                        k13 = bool(rounding and (dflt & (given1 ^ given2)))
+                        hits.append({'prop': prop, 'keymap': klabel, 'k13': k13,
+                                     'what': 'calls f%s and f%s bind identically but get different keys from %s.%s(tol=%r, deep=%r, ignore=%r): %r vs %r' % (
+                                         _show(first[bi][0], first[bi][1]), _show(a, k), modname, name, tol, deep, ign, first[bi][2], kf),
+                                     'calls': [[first[bi][0], first[bi][1]], [a, k]]})
+                        break
+    return hits[:4]
 
 
 def _show(a, k):
@@ -298,6 +416,12 @@ def _worker(args):
         except Exception as e:
             out.append({'idx': idx, 'error': '%s: %s' % (type(e).__name__, e)})
             continue
+        if prop in ('C09', 'C10', 'C11') and idx % 2 == 0:
+            try:
+                res['hits'] = res['hits'] + decorator_glue(prop, case, idx)
+            except Exception as e:
+                out.append({'idx': idx, 'error': 'decorator glue: %s: %s' % (type(e).__name__, e)})
+                continue
         if prop in ('C09', 'C10', 'C11'):
             try:
                 eh, es = keys_ext.run_ext_case(prop, sd, idx)
@@ -363,6 +487,7 @@ KM = {
  'md5': lambda: km.hashmap(algorithm='md5'), 'SHA256': lambda: km.hashmap(algorithm='SHA256'),
  'str+md5': lambda: km.stringmap() + km.hashmap(algorithm='md5'), 'raw': lambda: km.keymap(),
  'repr-typed': lambda: km.stringmap(typed=True, encoding='repr'),
+ 'raw-mark': lambda: km.keymap(sentinel=km.SENTINEL), 'md5-mark': lambda: km.hashmap(algorithm='md5', sentinel=km.SENTINEL),
 }
 def mk():
     if kind == 'dir': return ar.dir_archive(path, cached=True)
@@ -387,10 +512,12 @@ def archive_sessions(scratch, thorough):
     """a writer session and a reader session with different hash seeds on the same persistent archive:
     the reader must find every result as a load, never recompute"""
     kinds = ['dir', 'file', 'sql']
-    kms = ['str-nf', 'str-flat', 'pickle', 'dill', 'md5', 'SHA256', 'str+md5', 'raw', 'repr-typed']
-    combos = [(k, m) for k in kinds for m in kms if not (k == 'sql' and m == 'raw')]
+    kms = ['str-nf', 'str-flat', 'pickle', 'dill', 'md5', 'SHA256', 'str+md5', 'raw', 'repr-typed', 'raw-mark', 'md5-mark']
+    combos = [(k, m) for k in kinds for m in kms if not (k == 'sql' and m in ('raw', 'raw-mark'))]
     if not thorough:
-        combos = [c for i, c in enumerate(combos) if i % 3 == 0 or c in (('dir', 'pickle'), ('dir', 'SHA256'), ('file', 'str-nf'))]
+        # (raw keys stored in a pickled file carry the NULL / SENTINEL marker objects themselves)
+        combos = [c for i, c in enumerate(combos) if i % 3 == 0 or c in (('dir', 'pickle'), ('dir', 'SHA256'), ('file', 'str-nf'),
+                                                                         ('file', 'raw'), ('file', 'raw-mark'), ('dir', 'md5-mark'))]
     out = []
     for kind, kmlabel in combos:
         path = scratch.new({'dir': '.d', 'file': '.pkl', 'sql': '.db'}[kind])
